@@ -29,13 +29,21 @@ Proof.
 Qed.
 
 (* a child that exits on signal can always return once Run's context is cancelled *)
-Lemma cancelled_child_can_exit P s i k :
-  rctx s = true -> nth_error (kids s) i = Some k -> k_pc k = KInRun ->
+Lemma ctx_cancelled_child_can_exit P s i k :
+  kctx P k s = true -> nth_error (kids s) i = Some k -> k_pc k = KInRun ->
   c_exit (spec_of P (k_child k)) = OnSignal ->
   exists s', step P s (LKExit i (k_child k) None) = Some s'.
 Proof.
   intros Hc Hk Hp Hs. cbn [step]. rewrite Hk, Hp, N.eqb_refl. unfold exit_ok. rewrite Hs, Hc.
   rewrite orb_true_r. cbn. eauto.
+Qed.
+
+Lemma cancelled_child_can_exit P s i k :
+  rctx s = true -> nth_error (kids s) i = Some k -> k_pc k = KInRun ->
+  c_exit (spec_of P (k_child k)) = OnSignal ->
+  exists s', step P s (LKExit i (k_child k) None) = Some s'.
+Proof.
+  intros Hc. apply ctx_cancelled_child_can_exit. unfold kctx. now rewrite Hc.
 Qed.
 
 (* a launched child goroutine can always call Run *)
@@ -47,7 +55,7 @@ Proof. intros Hk Hp. cbn [step]. rewrite Hk, Hp, N.eqb_refl. eauto. Qed.
 (* ------------------------------------------------------------------ the deadlock (unrepaired code) *)
 
 Definition f8_params : params :=
-  mkParams [mkSpec 0 UntilRunDone OnSignal RWC; mkSpec 1 UntilRunDone OnSignal RWC] false false.
+  mkParams [mkSpec 0 UntilRunDone OnSignal RWC; mkSpec 1 UntilRunDone OnSignal RWC] false false false.
 
 (* Run boots [c0]; Reload(new = [c0;c1]) stops c0, stores the new configuration (setConfig) and is
    about to boot; Stop() arrives; Run leaves its select and starts stopAllRunnables on the NEW
